@@ -348,3 +348,11 @@ func coqGuides(gs []guideEntry) string {
 	}
 	return vh.CoqList(xs)
 }
+
+func coqStrings(xs []string) string {
+	ys := make([]string, len(xs))
+	for i, x := range xs {
+		ys[i] = vh.CoqString(x)
+	}
+	return vh.CoqList(ys)
+}
